@@ -79,6 +79,15 @@ def core_half(tier, seed, log):
         # skip the leading exhaustive block partly: keep every 3rd line of it to leave room for random ones
         got = [l for l in out.split("\n") if l and l.split(" ", 1)[0] in CORE_FIELDS]
         lines += got[::2] if prop in ("C02", "C03") else got
+    try:
+        from augment import augment
+        for prop in ("C02", "C03", "C04", "C12", "C13", "C16"):
+            sub = [l for l in lines if l.split(" ", 1)[0] in CORE_FIELDS]
+            extra = [l for l in augment(prop, sub[:20000], seed, budget=8000 if tier == "quick" else 60000) if l.split(" ", 1)[0] in CORE_FIELDS]
+            lines += extra
+            break      # one pass over the pooled core lines is enough
+    except Exception as e:
+        log(f"C20: augmentation skipped ({e})")
     def run(binary):
         p = subprocess.run([binary], input="\n".join(lines) + "\n", stdout=subprocess.PIPE, stderr=subprocess.DEVNULL, text=True)
         o = p.stdout.split("\n")
@@ -93,6 +102,8 @@ def core_half(tier, seed, log):
     for l, c, f, m in zip(lines, core, full, model):
         op = l.split(" ", 1)[0]
         fc, ff, fm = fields(c), fields(f), fields(m)
+        if "bad_op" in fc or "bad_op" in ff or "bad_op" in fm:
+            continue          # a malformed line is a defect of the generator, never a violation
         for k in CORE_FIELDS[op]:
             if not (fc.get(k) == ff.get(k) == fm.get(k)):
                 probs.append((l, k, fc.get(k), ff.get(k), fm.get(k)))
